@@ -10,6 +10,7 @@ registered / non-registered traffic, polls at any times, resets), from a new sca
 import Midi.Proofs.Polling
 import Midi.Spec.Monitor
 set_option linter.unusedSimpArgs false
+set_option linter.unusedVariables false
 namespace Midi.Props.C14
 open Midi Midi.Spec
 
@@ -24,10 +25,239 @@ def EvValid : PEv → Prop
   | .cc cn cv _ => cn < 128 ∧ cv < 128
   | _ => True
 
+/-! ### the relation between the monitor's memory and the model's per-channel state -/
+
+/-- the monitor remembers exactly the complete number of the model state; its bytes are 7-bit -/
+def NumOk (m : Mon) (ns : NumberState) : Prop :=
+  m.hi = some ns.msb ∧ m.lo = some ns.lsb ∧ m.reg = ns.isRegistered ∧ ns.msb < 128 ∧ ns.lsb < 128
+
+/-- simulation relation: what the monitor remembers (number bytes, latest controller-6 / controller-38 values with
+    their marks, owed byte) as determined by the phase of the model's per-channel state -/
+def MInv (m : Mon) : PState → Prop
+  | .waitingForNumber none _ _ => m.hi = none ∧ m.lo = none ∧ m.owed = none
+  | .waitingForNumber (some b) reg true => m.hi = some b ∧ m.lo = none ∧ m.reg = reg ∧ m.owed = none ∧ b < 128
+  | .waitingForNumber (some b) reg false => m.hi = none ∧ m.lo = some b ∧ m.reg = reg ∧ m.owed = none ∧ b < 128
+  | .waitingForFirstValue ns => NumOk m ns ∧ m.owed = none
+  | .valuePending ns arr f true => NumOk m ns ∧ m.cc6 = some (f, false, false) ∧ m.owed = some arr ∧ f < 128
+  | .valuePending ns _ f false => NumOk m ns ∧ m.cc38 = some f ∧ m.owed = none ∧ f < 128
+  | .fourteenComplete ns a b => NumOk m ns ∧ (∃ r, m.cc6 = some (a, r, true)) ∧ m.cc38 = some b ∧ m.owed = none ∧ a < 128 ∧ b < 128
+
+
+theorem div_lem (f cv : Nat) (h : cv < 128) : (f * 128 + cv) / 128 = f := by omega
+
+/-- unfold model transition + monitor step and normalise (all case splits are done by the caller) -/
+macro "mon_simp" : tactic => `(tactic|
+  simp [PState.onCC, PState.processValueMsb, PState.processValueLsb, PState.processValueIncDec, PState.processNumberByte,
+      Mon.step, isContributingCn, outMsgs, shapeOk, MInv, NumOk, Mon.numberOf, resolvePending,
+      completePending, attributionOk, reportsByte, PNMsg.sevenBit, PNMsg.fourteenBit, NumberState.number, build14_eq,
+      Nat.mul_comm, div_lem, *])
+
+
+theorem step_98 (ch timeout : Nat) (m : Mon) (st : PState) (cv now : Nat) (hcv : cv < 128) (h : MInv m st) :
+    ∃ m', m.step ch timeout (.cc 98 cv now) (st.onCC now ch 98 cv).2 = some m' ∧ MInv m' (st.onCC now ch 98 cv).1 := by
+  obtain ⟨hi, lo, reg, cc6, cc38, owed⟩ := m
+  cases st with
+  | waitingForNumber first r k =>
+    cases first <;> cases k <;> simp only [MInv] at h <;> mon_simp
+  | waitingForFirstValue ns =>
+    simp only [MInv, NumOk] at h
+    mon_simp
+  | valuePending ns arr f k =>
+    cases k <;> simp only [MInv, NumOk] at h <;> mon_simp
+  | fourteenComplete ns a b =>
+    simp only [MInv, NumOk] at h
+    obtain ⟨h1, ⟨r, h2⟩, h3⟩ := h
+    mon_simp
+
+theorem step_99 (ch timeout : Nat) (m : Mon) (st : PState) (cv now : Nat) (hcv : cv < 128) (h : MInv m st) :
+    ∃ m', m.step ch timeout (.cc 99 cv now) (st.onCC now ch 99 cv).2 = some m' ∧ MInv m' (st.onCC now ch 99 cv).1 := by
+  obtain ⟨hi, lo, reg, cc6, cc38, owed⟩ := m
+  cases st with
+  | waitingForNumber first r k =>
+    cases first <;> cases k <;> simp only [MInv] at h <;> mon_simp
+  | waitingForFirstValue ns =>
+    simp only [MInv, NumOk] at h
+    mon_simp
+  | valuePending ns arr f k =>
+    cases k <;> simp only [MInv, NumOk] at h <;> mon_simp
+  | fourteenComplete ns a b =>
+    simp only [MInv, NumOk] at h
+    obtain ⟨h1, ⟨r, h2⟩, h3⟩ := h
+    mon_simp
+
+theorem step_100 (ch timeout : Nat) (m : Mon) (st : PState) (cv now : Nat) (hcv : cv < 128) (h : MInv m st) :
+    ∃ m', m.step ch timeout (.cc 100 cv now) (st.onCC now ch 100 cv).2 = some m' ∧ MInv m' (st.onCC now ch 100 cv).1 := by
+  obtain ⟨hi, lo, reg, cc6, cc38, owed⟩ := m
+  cases st with
+  | waitingForNumber first r k =>
+    cases first <;> cases k <;> simp only [MInv] at h <;> mon_simp
+  | waitingForFirstValue ns =>
+    simp only [MInv, NumOk] at h
+    mon_simp
+  | valuePending ns arr f k =>
+    cases k <;> simp only [MInv, NumOk] at h <;> mon_simp
+  | fourteenComplete ns a b =>
+    simp only [MInv, NumOk] at h
+    obtain ⟨h1, ⟨r, h2⟩, h3⟩ := h
+    mon_simp
+
+theorem step_101 (ch timeout : Nat) (m : Mon) (st : PState) (cv now : Nat) (hcv : cv < 128) (h : MInv m st) :
+    ∃ m', m.step ch timeout (.cc 101 cv now) (st.onCC now ch 101 cv).2 = some m' ∧ MInv m' (st.onCC now ch 101 cv).1 := by
+  obtain ⟨hi, lo, reg, cc6, cc38, owed⟩ := m
+  cases st with
+  | waitingForNumber first r k =>
+    cases first <;> cases k <;> simp only [MInv] at h <;> mon_simp
+  | waitingForFirstValue ns =>
+    simp only [MInv, NumOk] at h
+    mon_simp
+  | valuePending ns arr f k =>
+    cases k <;> simp only [MInv, NumOk] at h <;> mon_simp
+  | fourteenComplete ns a b =>
+    simp only [MInv, NumOk] at h
+    obtain ⟨h1, ⟨r, h2⟩, h3⟩ := h
+    mon_simp
+
+theorem step_38 (ch timeout : Nat) (m : Mon) (st : PState) (cv now : Nat) (hcv : cv < 128) (h : MInv m st) :
+    ∃ m', m.step ch timeout (.cc 38 cv now) (st.onCC now ch 38 cv).2 = some m' ∧ MInv m' (st.onCC now ch 38 cv).1 := by
+  obtain ⟨hi, lo, reg, cc6, cc38, owed⟩ := m
+  cases st with
+  | waitingForNumber first r k =>
+    cases first <;> cases k <;> simp only [MInv] at h <;> mon_simp
+  | waitingForFirstValue ns =>
+    simp only [MInv, NumOk] at h
+    mon_simp
+  | valuePending ns arr f k =>
+    cases k <;> simp only [MInv, NumOk] at h <;> mon_simp
+  | fourteenComplete ns a b =>
+    simp only [MInv, NumOk] at h
+    obtain ⟨h1, ⟨r, h2⟩, h3⟩ := h
+    mon_simp
+
+theorem step_6 (ch timeout : Nat) (m : Mon) (st : PState) (cv now : Nat) (hcv : cv < 128) (h : MInv m st) :
+    ∃ m', m.step ch timeout (.cc 6 cv now) (st.onCC now ch 6 cv).2 = some m' ∧ MInv m' (st.onCC now ch 6 cv).1 := by
+  obtain ⟨hi, lo, reg, cc6, cc38, owed⟩ := m
+  cases st with
+  | waitingForNumber first r k =>
+    cases first <;> cases k <;> simp only [MInv] at h <;> mon_simp
+  | waitingForFirstValue ns =>
+    simp only [MInv, NumOk] at h
+    mon_simp
+  | valuePending ns arr f k =>
+    cases k <;> simp only [MInv, NumOk] at h <;> mon_simp
+  | fourteenComplete ns a b =>
+    simp only [MInv, NumOk] at h
+    obtain ⟨h1, ⟨r, h2⟩, h3⟩ := h
+    mon_simp
+
+theorem step_96 (ch timeout : Nat) (m : Mon) (st : PState) (cv now : Nat) (hcv : cv < 128) (h : MInv m st) :
+    ∃ m', m.step ch timeout (.cc 96 cv now) (st.onCC now ch 96 cv).2 = some m' ∧ MInv m' (st.onCC now ch 96 cv).1 := by
+  obtain ⟨hi, lo, reg, cc6, cc38, owed⟩ := m
+  cases st with
+  | waitingForNumber first r k =>
+    cases first <;> cases k <;> simp only [MInv] at h <;> mon_simp
+  | waitingForFirstValue ns =>
+    simp only [MInv, NumOk] at h
+    mon_simp
+  | valuePending ns arr f k =>
+    cases k <;> simp only [MInv, NumOk] at h <;> mon_simp
+  | fourteenComplete ns a b =>
+    simp only [MInv, NumOk] at h
+    obtain ⟨h1, ⟨r, h2⟩, h3⟩ := h
+    mon_simp
+
+theorem step_97 (ch timeout : Nat) (m : Mon) (st : PState) (cv now : Nat) (hcv : cv < 128) (h : MInv m st) :
+    ∃ m', m.step ch timeout (.cc 97 cv now) (st.onCC now ch 97 cv).2 = some m' ∧ MInv m' (st.onCC now ch 97 cv).1 := by
+  obtain ⟨hi, lo, reg, cc6, cc38, owed⟩ := m
+  cases st with
+  | waitingForNumber first r k =>
+    cases first <;> cases k <;> simp only [MInv] at h <;> mon_simp
+  | waitingForFirstValue ns =>
+    simp only [MInv, NumOk] at h
+    mon_simp
+  | valuePending ns arr f k =>
+    cases k <;> simp only [MInv, NumOk] at h <;> mon_simp
+  | fourteenComplete ns a b =>
+    simp only [MInv, NumOk] at h
+    obtain ⟨h1, ⟨r, h2⟩, h3⟩ := h
+    mon_simp
+
+theorem step_other (ch timeout : Nat) (m : Mon) (st : PState) (cn cv now : Nat)
+    (hn : cn ≠ 98 ∧ cn ≠ 99 ∧ cn ≠ 100 ∧ cn ≠ 101 ∧ cn ≠ 38 ∧ cn ≠ 6 ∧ cn ≠ 96 ∧ cn ≠ 97) (h : MInv m st) :
+    ∃ m', m.step ch timeout (.cc cn cv now) (st.onCC now ch cn cv).2 = some m' ∧ MInv m' (st.onCC now ch cn cv).1 := by
+  have hc : isContributingCn cn = false := by
+    simp [isContributingCn]; omega
+  have ho : st.onCC now ch cn cv = (st, (none, none)) := by
+    unfold PState.onCC
+    split <;> first | omega | rfl
+  rw [ho]
+  simp [Mon.step, hc, outMsgs, h]
+
+theorem step_cc (ch timeout : Nat) (m : Mon) (st : PState) (cn cv now : Nat) (hcv : cv < 128) (h : MInv m st) :
+    ∃ m', m.step ch timeout (.cc cn cv now) (st.onCC now ch cn cv).2 = some m' ∧ MInv m' (st.onCC now ch cn cv).1 := by
+  by_cases h1 : cn = 98; · subst h1; exact step_98 ch timeout m st cv now hcv h
+  by_cases h2 : cn = 99; · subst h2; exact step_99 ch timeout m st cv now hcv h
+  by_cases h3 : cn = 100; · subst h3; exact step_100 ch timeout m st cv now hcv h
+  by_cases h4 : cn = 101; · subst h4; exact step_101 ch timeout m st cv now hcv h
+  by_cases h5 : cn = 38; · subst h5; exact step_38 ch timeout m st cv now hcv h
+  by_cases h6 : cn = 6; · subst h6; exact step_6 ch timeout m st cv now hcv h
+  by_cases h7 : cn = 96; · subst h7; exact step_96 ch timeout m st cv now hcv h
+  by_cases h8 : cn = 97; · subst h8; exact step_97 ch timeout m st cv now hcv h
+  exact step_other ch timeout m st cn cv now ⟨h1, h2, h3, h4, h5, h6, h7, h8⟩ h
+
+theorem step_poll (ch timeout : Nat) (m : Mon) (st : PState) (now : Nat) (h : MInv m st) :
+    ∃ m', m.step ch timeout (.poll now) (((⟨timeout, st⟩ : PChan).poll now ch).2, none) = some m' ∧
+      MInv m' ((⟨timeout, st⟩ : PChan).poll now ch).1.state := by
+  obtain ⟨hi, lo, reg, cc6, cc38, owed⟩ := m
+  cases st with
+  | waitingForNumber first r k =>
+    cases first <;> cases k <;> simp only [MInv] at h <;> simp [PChan.poll] <;> mon_simp
+  | waitingForFirstValue ns =>
+    simp only [MInv, NumOk] at h
+    simp [PChan.poll]; mon_simp
+  | valuePending ns arr f k =>
+    by_cases hlt : now - arr < timeout <;>
+    cases k <;> simp only [MInv, NumOk] at h <;> simp [PChan.poll, hlt] <;> mon_simp
+  | fourteenComplete ns a b =>
+    simp only [MInv, NumOk] at h
+    obtain ⟨h1, ⟨r, h2⟩, h3⟩ := h
+    simp [PChan.poll]; mon_simp
+
+/-- one event: the monitor accepts what the model returned, and the relation is re-established -/
+theorem step_ev (ch timeout : Nat) (m : Mon) (st : PState) (e : PEv) (hv : EvValid e) (h : MInv m st) :
+    ∃ m', m.step ch timeout e ((⟨timeout, st⟩ : PChan).ev ch e).2 = some m' ∧
+      ((⟨timeout, st⟩ : PChan).ev ch e).1.timeout = timeout ∧
+      MInv m' ((⟨timeout, st⟩ : PChan).ev ch e).1.state := by
+  cases e with
+  | cc cn cv now =>
+    obtain ⟨m', h1, h2⟩ := step_cc ch timeout m st cn cv now hv.2 h
+    exact ⟨m', h1, rfl, h2⟩
+  | poll now =>
+    obtain ⟨m', h1, h2⟩ := step_poll ch timeout m st now h
+    exact ⟨m', h1, ev_timeout ch _ _, h2⟩
+  | reset =>
+    exact ⟨{}, by simp [Mon.step, PChan.ev, outMsgs], rfl, by simp [PChan.ev, PState.default, MInv]⟩
+
+theorem accepts_of_inv (ch timeout : Nat) (es : List PEv) (hv : ∀ e ∈ es, EvValid e) :
+    ∀ (m : Mon) (st : PState), MInv m st →
+      m.accepts ch timeout (traceOf ch ⟨timeout, st⟩ es) = true := by
+  induction es with
+  | nil => intros; rfl
+  | cons e es ih =>
+    intro m st h
+    obtain ⟨m', h1, h2, h3⟩ := step_ev ch timeout m st e (hv e List.mem_cons_self) h
+    simp only [traceOf, Mon.accepts, h1]
+    have hc : (PChan.ev ch ⟨timeout, st⟩ e).1 = ⟨timeout, (PChan.ev ch ⟨timeout, st⟩ e).1.state⟩ := by
+      generalize PChan.ev ch ⟨timeout, st⟩ e = r at h2
+      obtain ⟨⟨t, s⟩, o⟩ := r
+      simp only at h2
+      subst h2; rfl
+    rw [hc]
+    exact ih (fun e he => hv e (List.mem_cons_of_mem _ he)) m' _ h3
+
 /-- MAIN THEOREM: for every channel, timeout and every finite sequence of events, the monitor accepts the trace of
     the model started as a new scanner's channel. -/
 theorem monitor_accepts (ch timeout : Nat) (es : List PEv) (hv : ∀ e ∈ es, EvValid e) :
-    ({} : Mon).accepts ch timeout (traceOf ch { timeout := timeout } es) = true := by
-  sorry
+    ({} : Mon).accepts ch timeout (traceOf ch { timeout := timeout } es) = true :=
+  accepts_of_inv ch timeout es hv {} PState.default (by simp [PState.default, MInv])
 
 end Midi.Props.C14
